@@ -243,6 +243,8 @@ func c06Take(m *diam.Message) (s c06Snap, err string) {
 	if a := m.Answer(2001); a != nil {
 		_, _ = a.Serialize()
 	}
+	// ... and it is dumped for a log (the multi-line rendering)
+	_ = m.PrettyDump()
 	// ... and it is searched (read-only lookups by the handler or by whoever it was handed to)
 	for _, a := range m.AVP {
 		_, _ = m.FindAVP(a.Code, a.VendorID)
@@ -255,7 +257,7 @@ func c06Take(m *diam.Message) (s c06Snap, err string) {
 		}
 	}
 	if after := fmt.Sprintf("%s | header %+v", m.String(), *m.Header); after != str {
-		return s, fmt.Sprintf("the retained message changed when it was re-serialised / answered / searched: before %q, after %q", clip(str), clip(after))
+		return s, fmt.Sprintf("the retained message changed when it was re-serialised / answered / dumped / searched: before %q, after %q", clip(str), clip(after))
 	}
 	return c06Snap{wire: b, str: str}, ""
 }
